@@ -76,6 +76,44 @@ def spell_cl(name, case, rnd, mask=-1):
     return name.upper()
 
 
+def lifecycle_replay(ctx, rnd):
+    """Beyond C20's statement (never a verdict): the life cycle proxy.Run drives - NewProxy / Connect / Serve / Close - as
+    ProxyLifecycle.tla states it, model-checked in its documented form and in the form of the current tree
+    (spec/tree_switches.json closing_flag_unset), and the behaviours of the latter replayed against a real proxy.Proxy."""
+    info = {}
+    try:
+        doc = ctx.tlc("ProxyLifecycle", "ProxyLifecycle_doc.cfg", workers=2, timeout=300, name="lifecycle-documented")
+        haz = ctx.tlc("ProxyLifecycle", "ProxyLifecycle_hazard.cfg", workers=2, timeout=300, count=False, name="lifecycle-sensitivity")
+        cur = ctx.tlc("ProxyLifecycle", "ProxyLifecycle.cfg", workers=2, timeout=300, name="lifecycle-current-tree")
+        info["documented_model_holds"] = bool(doc.ok and not doc.violated)
+        info["flag_never_set_breaks"] = haz.violated
+        behs = []
+        pre = '<<"LIFE", '
+        for line in cur.output.splitlines():
+            if line.startswith(pre) and line.endswith(">>"):
+                behs.append(json.loads(line[len(pre):-2]))
+        behs = list(dict.fromkeys(behs))
+        info["behaviours_exported"] = len(behs)
+        if ctx.tier != "thorough":
+            behs = rnd.sample(behs, min(len(behs), 96))
+        path = ctx.path("lifecycle_behaviours.jsonl")
+        open(path, "w").write("\n".join(behs) + "\n")
+        out = ctx.path("lifecycle_result.json")
+        ctx.drv(["lifecycle", "-in", path, "-out", out, "-workers", "8"], timeout=900)
+        r = json.load(open(out))
+        info["behaviours_replayed"] = r["behaviours"]
+        info["steps"] = r["steps"]
+        dev = ["%s: expected %s, got %s (after %s)" % (m["what"], m["want"], m["got"], [x["a"] for x in m["behaviour"][:m["step"] + 1]])
+               for m in r.get("mismatches") or []]
+        info["deviations"] = dev[:20]
+        if dev:
+            print("NOTE beyond-property: %d deviations from ProxyLifecycle.tla, e.g. %s" % (len(dev), dev[0][:300]))
+    except Exception as e:  # outside the property: never turns the check inconclusive
+        info["error"] = str(e)[:300]
+        print("NOTE beyond-property: lifecycle replay did not run: %s" % str(e)[:200])
+    return info
+
+
 def yq(s):
     return '"%s"' % s
 
@@ -406,6 +444,7 @@ def run(ctx):
     if stats["served_ok"] == 0 or stats["refused_ok"] == 0:
         raise core.Inconclusive("vacuous run: served_ok=%d refused_ok=%d" % (stats["served_ok"], stats["refused_ok"]))
 
+    lifecycle = lifecycle_replay(ctx, rnd)
     ctx.assumptions += [
         "the documented order of protocol versions is the order of the help text (v3 < v4 < v5 < DSEv1 < DSEv2); pairs mixing v5 with a DSE version are left open",
         "undocumented spellings of version names (other letter case, decimal wire code) may be refused; when accepted they must select the version they name",
@@ -436,4 +475,5 @@ def run(ctx):
         "modes": done_modes,
         "outcomes": {k: v for k, v in stats.items() if isinstance(v, int)},
         "open_observations": observations,
+        "beyond_property_lifecycle": lifecycle,
     })
